@@ -42,6 +42,7 @@ type AScenario struct {
 	InitFail   int     `json:"initFail"`
 	Seed       int64   `json:"seed"`
 	CloseOrder []int   `json:"closeOrder"`
+	Hold       float64 `json:"hold"`  // seconds every closer stays blocked after all have been invoked (a Close that gives up waiting shows)
 	Cycle      bool    `json:"cycle"` // k000 <-> k001: the early reference of k000 is requested while k001 is populated
 }
 
@@ -372,6 +373,12 @@ func runAppScenario(sc *AScenario) []map[string]any {
 		}
 		// hold every closer a little longer: a Close that does not wait shows as closeReturn before closeEnd
 		time.Sleep(2 * time.Millisecond)
+		if sc.Hold > 0 && len(closers) > 0 {
+			select { // ... or much longer (beyond any plausible "slow closer" threshold)
+			case <-done:
+			case <-time.After(time.Duration(sc.Hold * float64(time.Second))):
+			}
+		}
 		order := sc.CloseOrder
 		if len(order) != len(closers) {
 			order = nil
